@@ -8,7 +8,7 @@ ValKinds == {"null", "true", "false", "int8", "int16", "int32", "int64", "float"
              "date", "ts", "tsntz", "time", "tsns", "tsntzns", "uuid", "binary", "string-short", "string-long", "string-64",
              "obj-empty", "obj-flat", "obj-nested", "obj-many", "arr-empty", "arr-mixed", "arr-obj", "arr-many", "deep"}
 Schemas == {"none", "string", "int32", "int64", "double", "float", "boolean", "binary", "date", "obj", "obj-nested",
-            "list-int32", "list-obj", "obj-list"}
+            "list-int32", "list-obj", "obj-list", "dec-bytes", "dec-flba", "dec-int32", "dec-int64"}
 Space == [part : {"enc"}, val : ValKinds, schema : {""}, wmode : {""}, rep : 1..3]
    \cup [part : {"file"}, val : {""}, schema : Schemas, wmode : {"typed", "raw"}, rep : 1..4]
 Init == s \in Space
